@@ -19,13 +19,7 @@ def _rand_img(rng, depth, W, H, ox, oy):
     return dict(depth=depth, W=W, H=H, ox=ox, oy=oy, pix=[[f() for _ in range(w)] for _ in range(h)])
 
 
-def system_palette_bytes(depth, name):
-    """palette bytes `Decoder.writeColorPalette` writes for a system palette (read from the repo's own table)"""
-    from drxtract.bitd.decoder import PALETTES
-    if depth not in (1, 8):
-        return b""
-    tbl = PALETTES[depth]
-    return bytes(tbl[name] if name in tbl else tbl["default"])
+system_palette_bytes = S.repo_palette
 
 
 def rand_bitmap_member(rng, depth, max_w=12, max_h=5):
